@@ -35,3 +35,18 @@ def check_c24(ctx):
          package="dist_harness",
          trusted=TRUSTED_DIST + ["harness/shims/tokio: in-memory TcpStream/TcpListener, immediate-ready read_exact/write_all; a peer that closes "
                                  "mid-frame yields UnexpectedEof as a real socket does"])
+
+
+def check_c20(ctx):
+    pure(ctx, "c20", "WalrusVerif.Props.C20",
+         "600 (thorough: 6000) random command sequences (<= 40 commands over 5 topics incl. non-ASCII/empty/long names, counts up to 2^61, "
+         "node upserts, garbage bytes): snapshot, restore into a fresh Metadata, compare canonical dumps; the model decodes the REAL snapshot "
+         "bytes and must reach its own state; the same further commands on both replicas; truncated snapshots; the adapter's payload "
+         "(encoding of an empty BTreeMap) through the real Metadata::restore; non-trivial = sequence with an accepted rollover",
+         None,
+         ["String::as_bytes/from_utf8 enter the theorems as a codec with decName (encName s) = some s",
+          "HashMap iteration order: the model encodes in list order; C20_order_irrelevant covers other orders; dumps are sorted",
+          "the Raft adapter (octopii/src/openraft/storage.rs) cannot be compiled offline: its snapshot path is tied by translator facts "
+          "(what build_snapshot serialises, that nothing writes that map, what install_snapshot passes to restore) and its payload is replayed "
+          "through the real Metadata::restore"],
+         package="dist_harness", trusted=TRUSTED_DIST)
